@@ -41,7 +41,9 @@ func encodeToString(candidate *CandidateNode, prefs encoderPreferences) (string,
 	}
 
 	printer := NewPrinter(encoder, NewSinglePrinterWriter(bufio.NewWriter(&output)))
-	err := printer.PrintResults(candidate.AsList())
+	// print a copy: printing explodes aliases (and some encoders re-tag keys) in place,
+	// and the candidate belongs to the document
+	err := printer.PrintResults(candidate.Copy().AsList())
 	return output.String(), err
 }
 
